@@ -66,5 +66,22 @@ let () = iter_lines (fun line ->
     (* the verified checker Instance.check_sort_output (C17_sort_output_checker_sound_partial) *)
     let ok = Instance.check_sort_output (mk hs1 ids1) (mk hs2 ids2) in
     Printf.printf "%d %d\n" (if ok then 1 else 0) (if ok then 1 else 0)
+  | (("HSORT" | "RSORT") as cmd) :: rest ->
+    (* HSORT v n pairs  = RadixSortG R=8 grouping W=64 ;  RSORT R W g n pairs *)
+    let (r, w, g, n, ws) = match cmd, rest with
+      | "HSORT", _v :: n :: ws -> (8, 64, true, int_of_string n, ws)
+      | _, r :: w :: g :: n :: ws -> (int_of_string r, int_of_string w, g <> "0", int_of_string n, ws)
+      | _ -> failwith "bad" in
+    let (hs, ids, _) = parse_pairs n ws in
+    let l = Array.to_list (Array.init n (fun i -> (hs.(i), z_of_string ids.(i)))) in
+    log := []; nlog := 0;
+    let sw l i j = push (int_of_z i * 100000 + int_of_z j); SorterSort.swap l i j in
+    let eqf a b = (string_of_z a = string_of_z b) in
+    let res = SorterSort.coq_RadixSortG sw eqf (z_of_int r) g (z_of_int w) l in
+    (match res with
+     | Ok l' ->
+       let body = Stdlib.String.concat "" (Stdlib.List.map (fun (c, x) -> string_of_z c ^ " " ^ string_of_z x ^ " ") l') in
+       Printf.printf "%s| %s\n" body (trace_str ())
+     | Stuck -> print_endline "Stuck" | Fuel -> print_endline "Fuel" | Exn -> print_endline "Exn")
   | _ -> print_endline "?"
   with e -> print_endline ("EXC " ^ Printexc.to_string e))
